@@ -45,9 +45,13 @@ func (c *chunkyReader) Read(p []byte) (int, error) {
 type eagerEOF struct {
 	b   []byte
 	pos int
+	max int // when > 0, at most max bytes per Read
 }
 
 func (e *eagerEOF) Read(p []byte) (int, error) {
+	if e.max > 0 && len(p) > e.max {
+		p = p[:e.max]
+	}
 	n := copy(p, e.b[e.pos:])
 	e.pos += n
 	if e.pos >= len(e.b) {
